@@ -31,3 +31,10 @@ CHECKS["C16"] = dict(
     text="CrossHair explores all paths of (a) the real ReuseTOML.from_dict with each key in turn taking every TOML type (nesting <= 2), (b) the real ClickObj.project with Project.from_directory raising each documented exception, (c) the real ProjectReport/ProjectSubsetReport.generate with FileReport.generate raising any of 11 exception classes per file; the postcondition is 'returns or raises a parse error naming the file' / 'click.UsageError' / 'a read-error entry and the run continues'. Counterexamples are replayed through ReuseTOML.from_toml on the tomlkit serialisation.",
     note="After the solver has chosen a shape the document is concrete, so the solver's part is the exhaustive, feasibility-checked exploration of the shape space (stated bound: one malformed key at a time, nesting <= 2). Outside: third-party parsers on raw bytes. Two known findings (annotations not an array of tables; unhashable array item) are carved out by predicate and re-established from their witnesses on every run.",
 )
+
+CHECKS["C04"] = dict(
+    engine="XH",
+    technique="symbolic execution (CrossHair + z3) of the real precedence chain on real objects against an independent model of the statement; all paths confirmed within the bound",
+    text="CrossHair explores every path of the real Project.reuse_info_of -> NestedReuseTOML/ReuseTOML/ReuseDep5 chain for own information (6 kinds) x .license sibling (5 kinds) x every chain of 2 (quick) / 3 (thorough) nested REUSE.toml files, each absent or one of 12 precedence x information shapes, plus two tables in one file (last match wins) and .reuse/dep5; the postcondition compares attributed copyright/licence sets, their source path and source type, and whether the file was read, with a model written from the statement. Counterexamples are replayed on a real temporary tree through Project.from_directory.",
+    note="Stubs: the file reader (C02's subject), is_binary, _determine_license_path; pathlib pure-path methods run natively on concrete values. The space is a finite table; the solver's role is exhaustive, feasibility-checked path exploration. Known finding closest-split (closest[0]) is carved out by a predicate and re-established on a real tree on every run.",
+)
